@@ -1550,6 +1550,8 @@ impl Zeroconf {
                     // leaving the callers waiting for a reply forever.
                     while receiver.try_recv().is_ok() {}
 
+                    #[cfg(feature = "verif-hooks")]
+                    crate::verif::point("exit:drained");
                     return Some(command);
                 }
                 self.exec_command(command, false);
